@@ -2,7 +2,8 @@
 
 Level: exploration.  Complete enumeration of a FIXED grid with deterministic
 inputs: every cell of p in 7..16 x a seed list x an n-grid (0,1,2,3,5,... log
-spaced to 40*2^p, plus floor(threshold[p])+-1 and 5*2^p+-1); keys are
+spaced to 40*2^p, plus floor(threshold[p])+-1 and 5*2^p+-1, plus the 200 knots of
+the bias-correction tables and the midpoints between them); keys are
 deterministic families (8-byte counters offset by VERIF_SEED; a variable-length
 family), fed through the public update(); estimates are read at checkpoints of
 one monotone build per (p, seed).
@@ -32,6 +33,11 @@ def n_grid(p, thr):
         x *= 1.45
     g |= {40 * m, int(thr) - 1, int(thr), int(thr) + 1, 5 * m - 1, 5 * m, 5 * m + 1, m, m // 2,
           2 * m, 3 * m}
+    # the bias-corrected regime [threshold, 5m] at the resolution of the shipped correction
+    # tables: their 200 knots lie (to within 1) at threshold + k*(5m-threshold)/199; every knot
+    # and every midpoint is a cell, so each table entry decides at least one estimate
+    for k2 in range(0, 2 * 199 + 1):
+        g.add(int(thr + k2 * (5 * m - thr) / 398.0))
     return sorted(v for v in g if v >= 0)
 
 
@@ -39,7 +45,7 @@ def seeds_for(p, tier, seed):
     base = [0, 1, 2**63 + 17 + seed, 2**64 - 1]
     if tier == "quick":
         return base + [2**32 + seed, 0xDEADBEEFCAFEF00D ^ seed, 12345 + seed, 2**63 - 1 - seed]
-    n = 60 if p <= 12 else 16
+    n = 200 if p <= 12 else 40
     return base + [(0x9E3779B97F4A7C15 * (i + 1 + seed)) & (2**64 - 1) for i in range(n)]
 
 
@@ -49,8 +55,61 @@ def keys(family, off, lo, hi):
     return [(b"%d:" % (off + i)) * ((i % 3) + 1) for i in range(lo, hi)]
 
 
+def build(var, p, sd, shared):
+    """(feeder, reader, keepalive).  Variant 2: numpy-typed constructor arguments; variant 4: the
+    keys are fed through update_ngram into a VIEW attached to a shared-memory owner and the
+    estimate is read from the owner."""
+    import numpy as _np
+
+    if var == 2:
+        sk = SK.make("hll", _np.uint8(p), _np.uint64(sd))
+        return sk, sk, None
+    if var == 4:
+        owner = SK.make("hll", p, sd, shared_memory=True)
+        view = SK.make("hll", p, sd)
+        view.attach_existing_shm(owner.shm.name)
+        return view, owner, None
+    sk = SK.make("hll", p, sd, shared_memory=shared)
+    return sk, sk, None
+
+
+def feed(sk, var, batch):
+    if var == 3:
+        try:
+            sk.update(iter(batch))  # may be refused, but must not be dropped
+        except TypeError:
+            sk.update(batch)
+    elif var == 4:
+        sk.update_ngram(batch, 8)  # 8-byte keys, n = 8: every key is added whole
+    else:
+        sk.update(batch)
+
+
+def via_file(sk, p, sd):
+    """Variant 5: the estimate of the same key set after save -> load(shared_memory=True),
+    read through a second handle attached to the loaded sketch's block."""
+    import os
+    import tempfile
+
+    fd, path = tempfile.mkstemp(suffix=".npz", dir="/dev/shm")
+    os.close(fd)
+    try:
+        sk.save(path)
+        L = type(sk).load(path, True)
+        v = SK.make("hll", p, sd)
+        v.attach_existing_shm(L.shm.name)
+        est = float(v.query())
+        del v, L
+        return est
+    finally:
+        os.unlink(path)
+
+
 def task(arg):
     p, seed, tier = arg
+    from ..common import quiet_shm
+
+    quiet_shm()
     from sketchnu import hll_constants as hc
 
     thr = float(hc.sub_algorithm_threshold[p - 7])
@@ -65,32 +124,28 @@ def task(arg):
         # one seed per precision is built in shared memory (same estimates are required)
         # seed #2 is constructed with numpy-typed arguments (p as the narrowest type that holds
         # it), seed #3 is fed through one-shot iterators
-        import numpy as _np
-
-        if si == 2:
-            sk = SK.make("hll", _np.uint8(p), _np.uint64(sd))
-        else:
-            sk = SK.make("hll", p, sd, shared_memory=(si == 1))
+        sk, reader, _ = build(si, p, sd, si == 1)
         fam = si % 2
         off = (seed * 1000003 + si * 7919) % 2**40
         done = 0
         for n in grid:
             while done < n:
                 step = min(n - done, 200000)
-                batch = keys(fam, off, done, done + step)
-                if si == 3:
-                    try:
-                        sk.update(iter(batch))  # may be refused, but must not be dropped
-                    except TypeError:
-                        sk.update(batch)
-                else:
-                    sk.update(batch)
+                feed(sk, si, keys(fam, off, done, done + step))
                 done += step
             cells += 1
             case = {"p": p, "seed": sd, "n": n, "family": fam, "offset": off, "shared": si == 1,
                     "variant": si}
             try:
-                est = float(sk.query())
+                est = float(reader.query())
+                if si == 4 and float(sk.query()) != est:
+                    viol.append((case, f"p={p} seed={sd} n={n}: the attached view estimates "
+                                       f"{float(sk.query())}, the owner of the block {est}"))
+                if si == 5 and n in (0, int(thr), m, 5 * m, grid[-1]):
+                    est2 = via_file(sk, p, sd)
+                    if est2 != est:
+                        viol.append((case, f"p={p} seed={sd} n={n}: estimate {est}, but {est2} after "
+                                           f"save -> load(shared_memory=True) -> attached handle"))
             except Exception as e:
                 viol.append((case, f"p={p} seed={sd} n={n}: query() raised {type(e).__name__}: {e}"))
                 continue
@@ -159,32 +214,30 @@ def replay(case):
     p, sd, n = case["p"], case["seed"], case["n"]
     thr = float(hc.sub_algorithm_threshold[p - 7])
     m = 1 << p
-    import numpy as _np
-
     var = case.get("variant", 0)
-    if var == 2:
-        sk = SK.make("hll", _np.uint8(p), _np.uint64(sd))
-    else:
-        sk = SK.make("hll", p, sd, shared_memory=bool(case.get("shared")))
+    sk, reader, _ = build(var, p, sd, bool(case.get("shared")))
     done = 0
     est = None
+    mism = None
     for g in [x for x in n_grid(p, thr) if x <= n]:
         while done < g:
             step = min(g - done, 200000)
-            batch = keys(case["family"], case["offset"], done, done + step)
-            if var == 3:
-                try:
-                    sk.update(iter(batch))
-                except TypeError:
-                    sk.update(batch)
-            else:
-                sk.update(batch)
+            feed(sk, var, keys(case["family"], case["offset"], done, done + step))
             done += step
         try:
-            est = float(sk.query())
+            est = float(reader.query())
+            if var == 4 and g == n and float(sk.query()) != est:
+                mism = {"view": float(sk.query()), "owner": est}
+            if var == 5 and g == n and g in (0, int(thr), m, 5 * m, n_grid(p, thr)[-1]):
+                e2 = via_file(sk, p, sd)
+                if e2 != est:
+                    mism = {"estimate": est, "after_load_shared_attach": e2}
         except Exception as e:
             if g == n:
                 return True, {"query_raised": type(e).__name__}
+    if mism is not None:
+        return True, mism
+    del reader
     del sk
     if n == 0:
         return est != 0.0, {"estimate": est}
